@@ -173,6 +173,7 @@ type Flow struct {
 	AdoptWarn                    map[int][]error
 	AdoptFatal                   error
 	DamagedGen                   map[int]bool          // incarnations adopted from a deliberately damaged image
+	LeftoverGen                  map[int]bool          // later incarnations on an image that still holds what an adoption abandoned because of damage
 	RetryErrMax                  bool                  // publisher tasks wait for capacity instead of moving on (long runs)
 	ActiveReqs                   []*Req                // requests the per-step monitors still have to look at
 	Custom                       func(f *Flow, s *Sim) // extra tasks of a family, started after the session is set up
@@ -233,6 +234,31 @@ func StoredPacket(v []byte) (packet []byte, seq uint64, sum uint32, ok bool) {
 	return v[:len(v)-12], seq, sum, true
 }
 
+// storedWithinMaximum (C17): the records of a level in the Persistence are its
+// transfers in flight; a Save never takes their number above the maximum.
+func (f *Flow) storedWithinMaximum(op *DiskOp) {
+	if op.Key == 0 || op.Key&(1<<16) != 0 || op.Key > 0xffff || len(f.DamagedGen) != 0 || f.O.Constructed || f.S == nil || f.S.dead {
+		return
+	}
+	space := op.Key &^ 0x3fff
+	max := effMax(f.O.ALOMax)
+	q := 1
+	if space == 0xc000 {
+		max, q = effMax(f.O.EOMax), 2
+	} else if space != 0x8000 {
+		return
+	}
+	n := 0
+	for k := range f.W.Disk.M {
+		if k != 0 && k <= 0xffff && k&^0x3fff == space {
+			n++
+		}
+	}
+	if n > max {
+		f.W.Violate("C17", "over-maximum", fmt.Sprintf("stored-q%d", q), "the Save of key %#04x at step %d takes the stored transfers of that level to %d, the maximum is %d", op.Key, op.Step, n, max)
+	}
+}
+
 func (f *Flow) OnDisk(op *DiskOp) {
 	if op.Key&(1<<16) != 0 && op.Effect {
 		id := uint16(op.Key)
@@ -251,6 +277,7 @@ func (f *Flow) OnDisk(op *DiskOp) {
 				c15.OnSave(f, op)
 			}
 		}
+		f.storedWithinMaximum(op)
 	}
 	switch op.Kind {
 	case 'S':
@@ -608,6 +635,12 @@ func (f *Flow) pubTask(s *Sim, name string, n int) {
 		}
 		if err != nil && !s.dead && !errors.Is(err, mqtt.ErrMax) && !errors.Is(err, ErrDiskInjected) && !errors.Is(err, mqtt.ErrClosed) {
 			w.Violate("C14", "publish-error-class", "persisted", "persisted publish returned %v", err)
+		}
+		if err != nil && !s.dead && pb.SavedAny {
+			// "a persisted publish that returns an error was not enqueued":
+			// nor may its packet sit in the Persistence, where the next
+			// AdoptSession would take it for accepted
+			w.Violate("C14", "rejected-but-saved", errClass(err), "persisted publish #%d (%s) returned %q but its PUBLISH was stored under key %#04x at step %d", pb.Idx, pb.Topic, shortErr(err), pb.ID, pb.SaveStep)
 		}
 	}
 }
@@ -1017,7 +1050,7 @@ func (f *Flow) goalReached() bool {
 			// accepted by an earlier incarnation: done when its record
 			// is gone again
 			if pb.Resumed && !pb.Deleted {
-				if f.DamagedGen[f.W.Gen] && !f.wireInGen(pb, f.W.Gen) {
+				if (f.DamagedGen[f.W.Gen] || f.LeftoverGen[f.W.Gen]) && !f.wireInGen(pb, f.W.Gen) {
 					// abandoned by AdoptSession because of the damage
 					continue
 				}
